@@ -34,16 +34,17 @@ import (
 
 // TxRec is one transaction that reached DeliverTx.
 type TxRec struct {
-	Height int64
-	Index  int
-	Raw    []byte
-	Origin string // who handed it to the chain ("k0", "byz2", ...)
-	Signer common.Address
-	Msg    *shmsg.Message // nil if undecodable
-	Nonce  uint64
-	Code   uint32
-	Log    string
-	Events []abcitypes.Event
+	Height   int64
+	Index    int
+	Raw      []byte
+	Origin   string // who handed it to the chain ("k0", "byz2", ...)
+	Admitted bool   // passed CheckTx and was delivered
+	Signer   common.Address
+	Msg      *shmsg.Message // nil if undecodable
+	Nonce    uint64
+	Code     uint32
+	Log      string
+	Events   []abcitypes.Event
 }
 
 // BlockRec is everything the application answered for one height.
@@ -58,12 +59,13 @@ type BlockRec struct {
 // Chain is the consensus loop. Heights 1..Height() are closed; height
 // Height()+1 is open (BeginBlock already executed) and collects transactions.
 type Chain struct {
-	ChainID  string
-	Apps     []*app.ShutterApp // replica 0 answers; the others are compared with it
-	Closed   []*BlockRec
-	Open     *BlockRec
-	AllTxs   []*TxRec
-	Rejected []*TxRec // refused by CheckTx (Code is CheckTx's)
+	ChainID   string
+	Apps      []*app.ShutterApp // replica 0 answers; the others are compared with it
+	Closed    []*BlockRec
+	Open      *BlockRec
+	AllTxs    []*TxRec
+	Rejected  []*TxRec // refused by CheckTx (Code is CheckTx's)
+	Submitted []*TxRec // every transaction handed to Submit, in order (Admitted says which list it is in)
 
 	AppPanics  []string // recovered panics of any application call
 	Divergence []string // replica disagreements
@@ -196,6 +198,7 @@ func (c *Chain) Submit(tx []byte, origin string) (rec *TxRec, check abcitypes.Re
 		rec.Msg = d.Msg.GetMsg()
 		rec.Nonce = d.Msg.GetRandomNonce()
 	}
+	c.Submitted = append(c.Submitted, rec)
 	check = abcitypes.ResponseCheckTx{Code: 1, Log: "faketm: CheckTx panicked"}
 	c.each("CheckTx", func(a *app.ShutterApp) []byte {
 		resp := a.CheckTx(abcitypes.RequestCheckTx{Tx: tx})
@@ -220,6 +223,7 @@ func (c *Chain) Submit(tx []byte, origin string) (rec *TxRec, check abcitypes.Re
 		return mustMarshal(&resp)
 	})
 	rec.Index = len(c.Open.Txs)
+	rec.Admitted = true
 	rec.Code, rec.Log, rec.Events = deliver.Code, deliver.Log, deliver.Events
 	c.Open.Txs = append(c.Open.Txs, rec)
 	c.Open.Deliver = append(c.Open.Deliver, &deliver)
@@ -261,6 +265,8 @@ type Client struct {
 	AfterDeliver func(rec *TxRec)
 	// Dead makes every call fail: the process behind this client is gone.
 	Dead bool
+	// Trace, if set, is called at the start of every RPC call.
+	Trace func(method string)
 
 	NBlock, NBlockResults, NInfo, NBroadcast, NRefused int
 }
@@ -300,6 +306,9 @@ func (cl *Client) Block(_ context.Context, height *int64) (*coretypes.ResultBloc
 		return nil, errClientDead
 	}
 	cl.NBlock++
+	if cl.Trace != nil {
+		cl.Trace("Block")
+	}
 	latest := cl.chain.Height()
 	h := latest
 	if height != nil {
@@ -319,6 +328,9 @@ func (cl *Client) BlockResults(_ context.Context, height *int64) (*coretypes.Res
 		return nil, errClientDead
 	}
 	cl.NBlockResults++
+	if cl.Trace != nil {
+		cl.Trace("BlockResults")
+	}
 	latest := cl.chain.Height()
 	h := latest
 	if height != nil {
@@ -344,6 +356,9 @@ func (cl *Client) BlockchainInfo(_ context.Context, minHeight, maxHeight int64) 
 		return nil, errClientDead
 	}
 	cl.NInfo++
+	if cl.Trace != nil {
+		cl.Trace("BlockchainInfo")
+	}
 	latest := cl.chain.Height()
 	if maxHeight <= 0 || maxHeight > latest {
 		maxHeight = latest
@@ -366,6 +381,9 @@ func (cl *Client) BroadcastTxCommit(_ context.Context, tx tmtypes.Tx) (*coretype
 		return nil, errClientDead
 	}
 	cl.NBroadcast++
+	if cl.Trace != nil {
+		cl.Trace("BroadcastTxCommit")
+	}
 	if cl.SendBudget == 0 {
 		cl.NRefused++
 		return nil, ErrBroadcastRefused
